@@ -137,6 +137,25 @@ theorem C06_run_split (c : PTChain) (xs ys : List PTChain.StepIn) :
     | none => rfl
     | some c' => exact ih c'
 
+/-- WHAT A CLEAR LEAVES. After `clear()` nothing is retained (`len = 0`), the iteration count is
+    kept, the current position / stats / blob are unchanged, and — once at least one iteration has
+    been made — the start position IS the point the chain stands on: "the retained history starts
+    at the clear". For every level of a tempered chain alike. -/
+theorem C06_clear_leaves (l : Chain) :
+    l.clear.len = 0 ∧ l.clear.iteration = l.iteration ∧ l.clear.current = l.current ∧
+    (0 < l.iteration → l.clear.start = l.current) ∧ l.clear.lastclear = l.iteration := by
+  obtain ⟨_, _, hit, _, _, hlc, _⟩ := clear_fields l
+  refine ⟨len_clear l, hit, clear_current l, ?_, hlc⟩
+  intro h
+  simp [Chain.clear, h]
+
+theorem C06_clear_leaves_pt (c : PTChain) :
+    ∀ l ∈ c.clear.levels, l.len = 0 ∧ ∃ l₀ ∈ c.levels, l = l₀.clear := by
+  intro l hl
+  simp only [PTChain.clear, List.mem_map] at hl
+  obtain ⟨l₀, h₀, rfl⟩ := hl
+  exact ⟨len_clear l₀, l₀, h₀, rfl⟩
+
 /-! ### Non-vacuity: the hypotheses are met by every freshly built chain, and `strip` really
 removes clears and growth -/
 
